@@ -21,6 +21,11 @@ Definition mk_obs a lo t lb ats pe os : obs :=
 
 Definition mk_cfg (thr mul frac : Z) : cfg := {| c_threshold := thr; c_multiple := mul; c_slashfrac := frac |}.
 
+(* light observation (long histories print the full projection only every few operations):
+   lists left empty and ob_acc + 10 *)
+Definition mk_light (a lo t : Z) : obs :=
+  {| ob_acc := a + 10; ob_lastobs := lo; ob_total := t; ob_lastby := []; ob_atts := []; ob_pending := []; ob_oracles := [] |}.
+
 Record hist := { h_cfg : cfg; h_ops : list (op * obs) }.
 Definition mk_hist (c : cfg) (l : list (op * obs)) : hist := {| h_cfg := c; h_ops := l |}.
 
@@ -65,6 +70,9 @@ Definition view_oracles (s : st) :=
   sort_by Z.leb (map (fun p => (fst p, (o_stake (snd p), o_online (snd p), o_bridger (snd p), o_slash (snd p)))) (oracles s)).
 
 Definition obs_ok (s : st) (r : res) (o : obs) : bool :=
+  if 10 <=? ob_acc o then
+    (res_class r + 10 =? ob_acc o) && (last_obs s =? ob_lastobs o) && (last_total s =? ob_total o)
+  else
   (res_class r =? ob_acc o) && (last_obs s =? ob_lastobs o) && (last_total s =? ob_total o)
   && list_eqb zz_eqb (view_lastby s) (ob_lastby o)
   && list_eqb att_eqb (view_atts s) (ob_atts o)
@@ -83,19 +91,29 @@ Definition hist_first_bad (h : hist) : Z := first_bad (h_cfg h) init 0 (h_ops h)
 Definition hist_mismatch (h : hist) : bool := negb (hist_first_bad h =? -1).
 
 (* ---- transaction layer (MsgClaim wrapper): one case = a state reached by a prefix of operations,
-        then one signed transaction; observed: accepted?, and the oracle ids recorded as voters of the
-        attestation (nonce, class) afterwards ---- *)
-Record tx_case := { x_cfg : cfg; x_prefix : list op; x_signers : list Z; x_tx : claim_tx;
+        then one signed transaction delivered either as bytes (x_bytes = true) or as a message object
+        through the same ante chain and router; observed: accepted?, and the oracle ids recorded as
+        voters of the attestation (nonce, class) afterwards.
+        The comparison accepts the behaviour of the code as it is AND of the code with the missing
+        pieces added (UnpackInterfaces on MsgClaim; wrapper = wrapped bridger check): a repaired tree must
+        not be flagged by the correspondence.  Which of them the tree shows is decided by the monitor. ---- *)
+Record tx_case := { x_cfg : cfg; x_prefix : list op; x_bytes : bool; x_signers : list Z; x_tx : claim_tx;
                     x_acc : bool; x_votes : list Z }.
-Definition mk_tx_case c p sg w i valid n cl park ms acc votes : tx_case :=
-  {| x_cfg := c; x_prefix := p; x_signers := sg;
+Definition mk_tx_case c p isbytes sg w i valid n cl park ms acc votes : tx_case :=
+  {| x_cfg := c; x_prefix := p; x_bytes := isbytes; x_signers := sg;
      x_tx := {| t_wrapper := w; t_inner := i; t_inner_valid := valid; t_nonce := n; t_cls := cl;
                 t_park := park; t_members := ms |};
      x_acc := acc; x_votes := votes |}.
 
-Definition tx_mismatch (x : tx_case) : bool :=
+Definition tx_matches (unpacked chk : bool) (x : tx_case) : bool :=
   let s := run (x_cfg x) init (x_prefix x) in
-  let '(s', r) := deliver_claim s (x_signers x) (x_tx x) in
+  let '(s', r) := deliver_claim unpacked chk s (x_signers x) (x_tx x) in
   let votes := match aget keq (t_nonce (x_tx x), t_cls (x_tx x)) (atts s') with
                | Some a => a_votes a | None => [] end in
-  negb (Bool.eqb (match r with Ok => true | _ => false end) (x_acc x) && list_eqb Z.eqb votes (x_votes x)).
+  Bool.eqb (match r with Ok => true | _ => false end) (x_acc x) && list_eqb Z.eqb votes (x_votes x).
+
+Definition tx_mismatch (x : tx_case) : bool :=
+  negb (tx_matches true false x || tx_matches true true x || (x_bytes x && tx_matches false false x)).
+
+(* which variant the implementation showed on a case: 0 = as in the tree this was written for *)
+Definition tx_as_written (x : tx_case) : bool := tx_matches (negb (x_bytes x)) false x.
